@@ -106,6 +106,12 @@ func genC08(r *rt.Rand, tier string, idx int) *world.Scenario {
 		head := append(append([]world.Op{}, ops[:at]...), world.Op{K: "waitcommitted"}, world.Op{K: "followersync", Node: 1, W: 0})
 		tail := append([]world.Op{}, ops[at:]...)
 		tail = append(tail, world.Op{K: "waitcommitted"}, world.Op{K: "compact", Rev: world.Rev{M: "zero"}})
+		if r.Chance(0.5) {
+			// the lagging node serves a compaction request itself (a deposed leader's periodic compaction, a
+			// client talking to the wrong node): at its own revision or at an older one, both below the floor
+			tail = append(tail, world.Op{K: "compact", Rev: []world.Rev{{M: "zero"}, {M: "init", N: int64(1 + r.Intn(3))}}[r.Intn(2)], Node: 1})
+			tail = append(tail, world.Op{K: "list", Key: prefix + "/", End: prefix + "0", Rev: world.Rev{M: "hdrminus", N: int64(1 + r.Intn(3))}})
+		}
 		for i := 0; i < 2+r.Intn(3); i++ {
 			switch r.Intn(3) {
 			case 0:
